@@ -1,4 +1,5 @@
 import Proofs.C02Scalar
+import Proofs.C02Hist
 /-!
 # C02 — the structural steps of the nested round trip (helpers)
 
@@ -763,6 +764,130 @@ theorem rt_tuple_ifaces (p : Nat) (ts : List CqlTy) (vs : List GoVal)
   rw [unmarshal_base _ _ _ rfl]
   have hi : (GoTy.iface == GoTy.iface) = true := rfl
   simp only [unmarshalBase, tuple_set_back p ts _ vs h ob hm, hi, if_true]
+
+/-! ## UDT ↔ map[string]interface{} -/
+
+/-- one UDT field with the value the map holds for it -/
+structure UField where
+  name : String
+  t : CqlTy
+  v : GoVal
+
+theorem enc1_of_mem (p : Nat) : ∀ (fl : List UField) (k : Nat) (f : UField), (fl.map (·.name)).Nodup → f ∈ fl →
+    ∃ i, lookupIdx f.name (fl.map (·.name)) k = some (k + i) ∧ (fl.map (·.t))[i]? = some f.t
+  | [], _, _, _, h => by cases h
+  | g :: r, k, f, hnd, hm => by
+    simp only [List.map_cons, List.nodup_cons] at hnd
+    rcases List.mem_cons.mp hm with rfl | hm
+    · exact ⟨0, by simp [lookupIdx], by simp⟩
+    · have hne : ¬ g.name = f.name := by
+        intro he
+        exact hnd.1 (by rw [he]; exact List.mem_map_of_mem hm)
+      obtain ⟨i, h1, h2⟩ := enc1_of_mem p r (k+1) f hnd.2 hm
+      refine ⟨i + 1, ?_, by simpa using h2⟩
+      simp only [List.map_cons, lookupIdx, if_neg hne, h1]
+      congr 1; omega
+
+theorem seqItems_not_none : ∀ rs : List MRes, seqItems (fun item => some (appendBytes item)) rs ≠ .ok none
+  | [] => by simp [seqItems]
+  | r :: rs => by
+    intro h
+    have ih := seqItems_not_none rs
+    simp only [seqItems] at h
+    cases r with
+    | ok item =>
+      simp only at h
+      cases hr : seqItems (fun item => some (appendBytes item)) rs with
+      | ok o => cases o with
+        | none => exact ih hr
+        | some x => rw [hr] at h; simp at h
+      | err => rw [hr] at h; simp at h
+      | crash => rw [hr] at h; simp at h
+      | unmodelled => rw [hr] at h; simp at h
+    | err => simp at h
+    | crash => simp at h
+    | unmodelled => simp at h
+
+/-- marshalUDT on a map[string]interface{} holding exactly the UDT's fields: the fields' encodings in order -/
+theorem marshal_udtmap (p : Nat) (fl : List UField) (hnd : (fl.map (·.name)).Nodup) (hne : fl ≠ []) :
+    marshal p (.udt (fl.map (·.name)) (fl.map (·.t))) (.udtmap false (fl.map (·.name)) (fl.map (·.v))) =
+      seqItems (fun item => some (appendBytes item)) (fl.map (fun f => marshal p f.t f.v)) := by
+  have hz : fl.map (·.name) = (fl.map (fun f => (f.name, f.v))).map (·.1) := by simp [List.map_map, Function.comp_def]
+  have hv : fl.map (·.v) = (fl.map (fun f => (f.name, f.v))).map (·.2) := by simp [List.map_map, Function.comp_def]
+  have hnames : fl.map (·.name) ≠ [] := by simpa using hne
+  simp only [marshal]
+  rw [C02Hist.marshalNamed_eq]
+  conv => lhs; arg 2; rw [hv]; arg 2; rw [hz]
+  conv => lhs; arg 3; rw [hz]
+  rw [C02Hist.udtAssemble_pick, if_neg hnames]
+  congr 1
+  rw [List.map_map]
+  apply List.map_congr_left
+  intro f hf
+  simp only [Function.comp]
+  have hmem : (f.name, f.v) ∈ fl.map (fun f => (f.name, f.v)) := List.mem_map_of_mem hf
+  rw [C02Hist.pick_of_mem _ f.name f.v _ (by rw [← hz]; exact hnd) hmem]
+  obtain ⟨i, h1, h2⟩ := enc1_of_mem p fl 0 f hnd hf
+  simp only [C02Hist.enc1, h1, Nat.zero_add, h2]
+
+/-- marshalUDT's field loop against unmarshalUDT's loop into map[string]interface{} -/
+theorem udtmap_back (p : Nat) : ∀ (fl : List UField) (body rest : Bytes),
+    (∀ f, f ∈ fl → RT p f.t (goTypeOf f.t) f.v ∧ Small p f.t f.v) →
+    seqItems (fun item => some (appendBytes item)) (fl.map (fun f => marshal p f.t f.v)) = .ok (some body) →
+    unmarshalUdtMap p (fl.map (·.name)) (fl.map (·.t)) (body ++ rest) = .ok (fl.map (·.v)) rest
+  | [], body, rest, _, h => by
+    simp [seqItems] at h
+    subst h
+    simp [unmarshalUdtMap]
+  | f :: fl, body, rest, hrt, h => by
+    simp only [List.map_cons, seqItems] at h
+    cases hm : marshal p f.t f.v with
+    | ok item =>
+      rw [hm] at h
+      simp only at h
+      cases hr : seqItems (fun item => some (appendBytes item)) (fl.map (fun f => marshal p f.t f.v)) with
+      | ok orest =>
+        rw [hr] at h
+        have hf := hrt f List.mem_cons_self
+        have hu := hf.1 item hm
+        have hsm : ∀ b, item = some b → b.length < 2^31 := by intro b hb; subst hb; exact hf.2 b hm
+        cases orest with
+        | none => exact absurd hr (seqItems_not_none _)
+        | some rest' =>
+          simp at h
+          subst h
+          have ih := udtmap_back p fl rest' rest (fun g hg => hrt g (List.mem_cons_of_mem _ hg)) hr
+          have hrd := C12Frame.readBytesM_appendBytes item (rest' ++ rest) hsm
+          have hsh := C12Frame.appendBytes_length_ge item (rest' ++ rest)
+          have hne : appendBytes item ++ (rest' ++ rest) ≠ [] := by
+            intro h0
+            rw [h0] at hsh
+            simp [shorter] at hsh
+          simp only [List.map_cons, unmarshalUdtMap, List.append_assoc, if_neg hne, hsh, Bool.false_eq_true, if_false, hrd]
+          rw [unmarshal_eta, hu]
+          simp only [ih]
+      | err => rw [hr] at h; simp at h
+      | crash => rw [hr] at h; simp at h
+      | unmodelled => rw [hr] at h; simp at h
+    | err => rw [hm] at h; simp at h
+    | crash => rw [hm] at h; simp at h
+    | unmodelled => rw [hm] at h; simp at h
+
+/-- UDT ↔ map[string]interface{} holding, for every field of the UDT (in any number, distinct names), a goType(field)
+    value whose round trip holds: the map comes back with the same entries -/
+theorem rt_udtmap (p : Nat) (fl : List UField) (hnd : (fl.map (·.name)).Nodup) (hne : fl ≠ [])
+    (hrt : ∀ f, f ∈ fl → RT p f.t (goTypeOf f.t) f.v ∧ Small p f.t f.v) :
+    RT p (.udt (fl.map (·.name)) (fl.map (·.t))) .udtmap (.udtmap false (fl.map (·.name)) (fl.map (·.v))) := by
+  intro ob hm
+  rw [marshal_udtmap p fl hnd hne] at hm
+  rw [unmarshal_base _ _ _ rfl]
+  cases ob with
+  | none => exact absurd hm (seqItems_not_none _)
+  | some body =>
+    have := udtmap_back p fl body [] hrt hm
+    simp only [List.append_nil] at this
+    simp only [unmarshalBase, this]
+    rw [List.take_of_length_le (by simp)]
 
 theorem nullOK_scalar (p : Nat) (t : CqlTy) (ht : CqlTy.isScalar t = true) : NullOK p t := by
   unfold NullOK
